@@ -215,6 +215,17 @@ func (cy *c10Cycle) line(r *Rand, n int) string {
 // submitted there.  The penalty belongs to the client, not to the connection: the lines of the
 // second connection are held exactly as if the first had never ended (window oracle over the
 // whole wire history).
+// close case: kind "burst" with flag "c": Flood off, twelve lines submitted at once (all but
+// the first few are held back by flood protection), and 300 ms later the application calls
+// Close().  Whatever reached the wire obeys the window bound; the rest is dropped.
+func c10CloseCase(r *Rand) Fields {
+	xs := []interface{}{"burst", "c"}
+	for k := 0; k < 12; k++ {
+		xs = append(xs, r.Range(30, 50), 0)
+	}
+	return F(xs...)
+}
+
 func c10ReconnCase(r *Rand) Fields {
 	a, b, c := r.Range(40, 70), r.Range(40, 70), r.Range(40, 70)
 	return F("burst", "r2", a, 0, b, 0, 9, 0, 24, 0, c, 0)
@@ -288,8 +299,11 @@ func c10Gen(r *Rand, tier string, scale int, emit func(Fields)) {
 		nrc = 3
 	}
 	var reconns []Fields
-	for k := 0; k < nrc; k++ {
+	for k := 0; k < 2*nrc; k++ {
 		rc := c10ReconnCase(r)
+		if k >= nrc {
+			rc = c10CloseCase(r)
+		}
 		reconns = append(reconns, rc)
 		fut := &c10Future{done: make(chan struct{})}
 		c10memo.Store(rc.String(), fut)
@@ -613,7 +627,18 @@ func c10RunBurst(in Fields) Fields {
 		submit[k] = int64(time.Since(created))
 		c.Raw(c10Filler(k, l))
 	}
-	waitFor(nreg+len(lens), time.Duration(total)+20*time.Second)
+	if in.S(1) == "c" {
+		time.Sleep(300 * time.Millisecond)
+		cdone := make(chan struct{})
+		go func() { c.Close(); close(cdone) }()
+		select {
+		case <-cdone:
+		case <-time.After(10 * time.Second):
+		}
+		time.Sleep(100 * time.Millisecond)
+	} else {
+		waitFor(nreg+len(lens), time.Duration(total)+20*time.Second)
+	}
 	mu.Lock()
 	got := append([]c10rec{}, recs...)
 	mu.Unlock()
@@ -665,6 +690,9 @@ func c10Class(in Fields) string {
 		}
 		if strings.HasPrefix(in.S(1), "r") {
 			return "burst:flood-off:reconnect"
+		}
+		if in.S(1) == "c" {
+			return "burst:flood-off:close-with-backlog"
 		}
 		return fmt.Sprintf("burst:flood-off:%d-lines", (len(in)-2)/2)
 	}
